@@ -993,6 +993,17 @@ class Frame(object):
                 return sorted(args[0])
             except TypeError:
                 raise LiftUnknown('sorted of unorderable values')
+        if name in ('builtin.min', 'builtin.max'):
+            vals = list(args[0]) if len(args) == 1 else list(args)
+            try:
+                return (min if name == 'builtin.min' else max)(vals)
+            except TypeError:
+                raise LiftUnknown('%s of unorderable values' % name)
+        if name in ('builtin.any', 'builtin.all'):
+            vals = list(args[0])
+            if any(isinstance(v, (Sym, Unknown)) for v in vals):
+                raise LiftUnknown('%s over symbolic values' % name)
+            return (any if name == 'builtin.any' else all)(vals)
         if name in ('builtin.list', 'builtin.tuple'):
             return list(args[0]) if args else []
         if name == 'builtin.dict':
